@@ -262,7 +262,7 @@ func init() {
 				[]string{"reconcile never panics"}, []string{"reconcile returned"}),
 			syncRun("sync-conflict-and-cache-miss", []int{1, 1, 0, yStatusConflict | yCacheLosesSet | yHealthDims, nC15}, []int{2, 2, 1, yStatusConflict | yCacheLosesSet | yHealthDims, nC15},
 				[]string{"reconcile never panics"}, []string{"the set leaves the cache during the reconcile", "fault injected at set.updateStatus"}),
-			syncRun("sync-selector-shapes", []int{1, 1, 0, yUndefaulted | ySelectorShapes, nC15}, []int{1, 1, 0, yUndefaulted | ySelectorShapes | yHealthDims, nC15},
+			syncRun("sync-selector-shapes", []int{1, 1, 0, yUndefaulted | ySelectorShapes, nC15}, []int{2, 1, 0, yUndefaulted | ySelectorShapes | yHealthDims, nC15},
 				[]string{"reconcile never panics"}, []string{"empty selector", "DoesNotExist selector"}),
 		},
 		Stubs:        ctlStubs,
